@@ -7,6 +7,7 @@ from c51 import sysfn
 MIX = "radix_engine::system::system_modules::module_mixer::SystemModuleMixer"
 AM = "radix_engine::system::system_modules::auth::auth_module::AuthModule"
 AZ = "radix_engine::system::system_modules::auth::authorization::"
+A_ = AZ + "Authorization"
 INVOKE = r"kernel_api::KernelInvokeApi(<.*>)?(>)?::kernel_invoke$"
 
 
@@ -98,4 +99,31 @@ def run(ctx):
                     good = ow is None or not (full - set(ed))
                     ctx.ob(f"evaluator|{f.name.split('::')[-1]}|{si['enum'].split('::')[-1]}", good, f"match at bb{bb} covers {sorted(ed)}" + ("" if good else f" with catch-all for {sorted(full-set(ed))}"), b.loc(bb))
     ctx.floor("evaluator-matches", n_m, 3)
-    ctx.assume("the iff semantics of require/amount-of/count-of/all-of/any-of and the auth-zone stack walk are value-level recursion and not decided")
+    ctx.rule("T2 + operand origin: require_amount(N, R) is granted (Ok(true) in auth_zone_stack_has_amount's per-zone closure) only behind "
+             "proof_matches(..) == true and a `>=` test whose left operand is the amount() of that one proof and whose right operand is N — proof "
+             "amounts are not additive (two proofs over the same funds), so no accumulated value may satisfy the rule")
+    cn = A_ + "::auth_zone_stack_has_amount::{closure#0}"
+    if ctx.anchor(cn):
+        b = ctx.body(cn)
+        trues = []
+        for i in range(b.n):
+            for st in b.stmts(i):
+                if st["k"] == "=" and st["p"] == [0] and st["rv"]["k"] == "agg" and st["rv"].get("var") == "Ok" and \
+                        st["rv"]["ops"] and st["rv"]["ops"][0][0] == "k" and str(st["rv"]["ops"][0][1].get("v")) in ("1", "true"):
+                    trues.append(i)
+
+        def one_proof_ge(body):
+            e, bl = [], []
+            for bb, tru, fal, si in body.call_bool_guards(r"PartialOrd(<[^>]*>)?(>)?::ge$"):
+                c = [a for a in si["atoms"] if a.kind == "call" and a.what.endswith("::ge")]
+                t = body.term(c[0].bb) if c else None
+                if not t:
+                    continue
+                lhs = origin_names(body, t["args"][0])
+                if lhs and all(x.endswith("NativeProof>::amount") for x in lhs):
+                    e.append((bb, tru)); bl.append(bb)
+            return e, bl
+        check_guarded(ctx, "has_amount|granted-only-on-one-proofs-amount", b, trues,
+                      [G_bool_call(re.escape(A_) + r"::proof_matches$", True), G_custom(one_proof_ge, "proof.amount() >= N (left operand is one proof's amount)")],
+                      "Ok(true) of the amount-of evaluator")
+    ctx.assume("the iff semantics of require/count-of/all-of/any-of and the auth-zone stack walk are value-level recursion and not decided (for amount-of only the one-proof comparison shape is)")
